@@ -197,8 +197,16 @@ impl fmt::Display for HumanFloatCount {
             // text itself is the integer part.
             None => (num.clone(), ""),
         };
-        let len = int_part.len();
-        for (idx, c) in int_part.chars().enumerate() {
+        // Group the digits only, not the sign.
+        let digits = match int_part.strip_prefix('-') {
+            Some(digits) => {
+                f.write_char('-')?;
+                digits
+            }
+            None => int_part.as_str(),
+        };
+        let len = digits.len();
+        for (idx, c) in digits.chars().enumerate() {
             let pos = len - idx - 1;
             f.write_char(c)?;
             if pos > 0 && pos % 3 == 0 {
